@@ -366,7 +366,7 @@ def fv(repo, qual, **kw):
 FRESH = "FRESH"
 
 # numpy / python callables: does the result share memory with argument 0?
-VIEW_FUNCS = {"np.asarray", "np.asanyarray", "np.expand_dims", "np.squeeze", "np.transpose", "np.reshape",
+VIEW_FUNCS = {"xarray.DataArray", "np.asarray", "np.asanyarray", "np.expand_dims", "np.squeeze", "np.transpose", "np.reshape",
               "np.rot90", "np.ravel", "np.atleast_1d", "np.atleast_2d", "np.atleast_3d", "np.moveaxis",
               "np.swapaxes", "np.flip", "np.broadcast_to", "np.real", "np.imag", "np.ascontiguousarray"}
 VIEW_METHODS = {"to_xarray", "reshape", "transpose", "squeeze", "view", "ravel", "swapaxes", "__getitem__", "diagonal"}
@@ -385,8 +385,8 @@ FRESH_FUNCS = {"np.array", "np.copy", "np.full", "np.zeros", "np.ones", "np.empt
                "spfft.fftfreq", "spfft.rfftfreq", "len", "int", "float", "bool", "str", "range", "sorted", "dict",
                "max", "min", "sum", "abs", "round", "isinstance", "tuple", "list", "set", "zip", "enumerate",
                "reversed", "map", "any", "all", "type", "hasattr", "callable", "math.ceil", "math.prod",
-               "np.tile", "np.repeat", "np.outer", "np.column_stack", "np.hstack", "np.vstack"}
-FRESH_METHODS = {"sel", "copy", "astype", "tolist", "item", "sum", "mean", "max", "min", "round", "conjugate",
+               "dir", "h5py.File", "np.tile", "np.repeat", "np.outer", "np.column_stack", "np.hstack", "np.vstack"}
+FRESH_METHODS = {"create_dataset", "create_group", "isoformat", "render", "sel", "copy", "astype", "tolist", "item", "sum", "mean", "max", "min", "round", "conjugate",
                  "conj", "cumsum", "prod", "all", "any", "argsort", "tobytes", "index", "keys", "values",
                  "items", "get", "format", "join", "split", "lower", "strip", "startswith", "endswith",
                  "count", "to_numpy", "flatten", "dot", "std", "nonzero", "argmax", "argmin", "pop"}
@@ -435,6 +435,8 @@ class Alias:
         if k == "attr":
             base = self.roots(ctx, args[0])
             name = head[1]
+            if name in ("attrs", "shape", "dtype", "size", "ndim", "units", "name"):
+                return set()          # metadata of an array / DataArray, not its buffer
             return {f"{b}.{name}" for b in base} if base else set()
         if k == "prop":
             name = head[1]
